@@ -178,7 +178,7 @@ func (s *State) assume(t *Term) {
 	if t.S == "false" {
 		s.dead = true
 	}
-	s.pc = append(s.pc, t.S)
+	s.pc = append(s.pc, "(assert "+t.S+")")
 }
 
 // ---------------------------------------------------------------------------
@@ -298,9 +298,11 @@ func (vc *VC) heap(st *State, name string, s *Sort) *Term {
 func (vc *VC) setHeap(st *State, name string, t *Term) {
 	// name long store chains so that terms stay small
 	if len(t.S) > 160 {
-		c := vc.fresh(name, t.Sort)
-		st.assume(Eq(c, t))
-		t = c
+		// a definition, not an equation: array equalities are expensive for the solvers
+		vc.nfresh++
+		dn := fmt.Sprintf("%s_d%d", smtName(name), vc.nfresh)
+		st.pc = append(st.pc, fmt.Sprintf("(define-fun %s () %s %s)", dn, t.Sort.Name, t.S))
+		t = T(t.Sort, dn)
 	}
 	st.heaps[name] = t
 }
